@@ -34,7 +34,7 @@ NormObs(o) == [o EXCEPT !.post = NormState(@), !.junk = ToSet(@), !.writes = ToS
 
 \* the observation seen as an Out record, for the history variable
 ObsOut(e, o) ==
-  IF e.msg.type = "Batch"
+  IF e.msg.type = "Batch" /\ "inner" \in DOMAIN o
   THEN [msg |-> e.msg, faults |-> e.faults, res |-> ResOf(o), resp |-> o.resp, calls |-> o.calls, evs |-> o.evs, inner |-> o.inner]
   ELSE [msg |-> e.msg, faults |-> e.faults, res |-> ResOf(o), resp |-> o.resp, calls |-> o.calls, evs |-> o.evs]
 
